@@ -27,12 +27,26 @@ def monitor_units(prop):
     return out
 
 
+MIXINS = [
+    ("combination", "CombinationMixin"), ("conditional", "ConditionalMixin"), ("error_handling", "ErrorHandlingMixin"),
+    ("filtering", "FilteringMixin"), ("mathematical", "MathematicalMixin"), ("multicasting", "MulticastingMixin"),
+    ("testing", "TestingMixin"), ("time_based", "TimeBasedMixin"), ("transformation", "TransformationMixin"),
+    ("utility", "UtilityMixin"), ("windowing", "WindowingMixin"),
+]
+
+
+def forward_units(prop):
+    return [{"runner": "forward", "file": f"reactivex/observable/mixins/{f}.py", "cls": c, "prop": prop,
+             "id": f"reactivex/observable/mixins/{f}.py::{c}"} for f, c in MIXINS]
+
+
 #: which unit families each property draws on
 FAMILIES = {
     "C05": ["op"],
     "C25": ["monitor"],
     "C26": ["monitor"],
     "C27": ["monitor"],
+    "C39": ["forward"],
 }
 
 
@@ -43,6 +57,8 @@ def units_for(prop, tier):
         us += op_units(prop)
     if "monitor" in fams:
         us += monitor_units(prop)
+    if "forward" in fams:
+        us += forward_units(prop)
     for u in us:
         u["tier"] = tier
     return us
